@@ -131,4 +131,17 @@ def run_selftest(pids=None, verbose=False) -> int:
         if verbose or status != "pass":
             print(f"  selftest {status:5s} {name}: {detail}")
     print(f"selftest: {len(results)} variants, {len(results) - n_fail - n_stale} pass, {n_stale} stale, {n_fail} FAIL")
+    global LAST_STATS
+    LAST_STATS = {
+        "variants": len(results),
+        "pass": len(results) - n_fail - n_stale,
+        "stale": n_stale,
+        "fail": n_fail,
+        "break_variants": sum(1 for v in todo if v["kind"] == "break"),
+        "twin_variants": sum(1 for v in todo if v["kind"] == "twin"),
+        "results": [{"variant": n, "status": st, "detail": d[:160]} for n, st, d in results],
+    }
     return 1 if n_fail else 0
+
+
+LAST_STATS = {}
